@@ -493,7 +493,8 @@ func (t *UpdateTran) fkeyDeleteBlock(ts *meta.Schema, i int, key string, cascade
 }
 
 func (t *UpdateTran) fkeyDeleteExists(fkth *schema.Fkey, key string, kn int) bool {
-	end := rangeEnd(key, kn)
+	fkis := t.meta.GetRoSchema(fkth.Table).Indexes[fkth.IIndex].Ixspec
+	end := fkeyRangeEnd(&fkis, key, kn)
 	iter := index.NewOverIter(fkth.Table, fkth.IIndex)
 	iter.Range(index.Range{Org: key, End: end})
 	iter.Next(fkeyTran{t})
@@ -502,6 +503,17 @@ func (t *UpdateTran) fkeyDeleteExists(fkth *schema.Fkey, key string, kn int) boo
 	}
 	t.Read(fkth.Table, fkth.IIndex, key, end)
 	return !iter.Eof()
+}
+
+// fkeyRangeEnd returns the end of the range of the foreign key index entries
+// that reference key. If the index does not encode (single field keys)
+// its entries are the raw values, so only key itself matches
+// (rangeEnd would also take in values that extend key with zero bytes).
+func fkeyRangeEnd(fkis *ixkey.Spec, key string, n int) string {
+	if !fkis.Encodes() {
+		return key + "\x00"
+	}
+	return rangeEnd(key, n)
 }
 
 // rangeEnd returns the end of the range for a key.
@@ -556,7 +568,7 @@ func (t *UpdateTran) cascadeRange(fk *schema.Fkey, encoded bool, key string, kn 
 	if !encoded && fkis.Encodes() {
 		key = ixkey.Encode(key)
 	}
-	end := rangeEnd(key, kn)
+	end := fkeyRangeEnd(&fkis, key, kn)
 	t.Read(fk.Table, fk.IIndex, key, end)
 	iter := index.NewOverIter(fk.Table, fk.IIndex)
 	iter.Range(index.Range{Org: key, End: end})
